@@ -215,6 +215,19 @@ def all_module_scalars():
     return out
 
 
+def _differs(cur, saved):
+    """A module-level scalar global (None / int / float / bool / str at snapshot time) holds something else now - possibly an object of another
+    type, e.g. an array parked in a global that started as None."""
+    if cur is saved:
+        return False
+    if type(cur) is not type(saved):
+        return True
+    try:
+        return bool(cur != saved)
+    except Exception:
+        return True
+
+
 class View:
     def __init__(self):
         self.objs = tracked_objects()
@@ -242,13 +255,13 @@ class View:
             except Exception:
                 n += int(len(c) != len(saved))
         for (m, k), v in zip(self.scalars, scal):
-            n += int(getattr(m, k, None) is not v and getattr(m, k, None) != v)
+            n += int(_differs(getattr(m, k, None), v))
         return n
 
     def restore(self, snap):
         objs, conts, scal = snap
         for (m, k), v in zip(self.scalars, scal):
-            if getattr(m, k, None) is not v and getattr(m, k, None) != v:
+            if _differs(getattr(m, k, None), v):
                 setattr(m, k, v)
         for (_, o), d in zip(self.objs, objs):
             cur = vars(o)
